@@ -14,6 +14,7 @@ SYNC = {
             ('suite',)],
     'C17': [('cases', 'c17_exhaustive', sc.c17_exhaustive_size('quick'), sc.c17_exhaustive_size('thorough')),
             ('cases', 'c17_random', 1500, 60000), ('cases', 'c17_iterate', 3000, 100000),
+            ('cases', 'c17_large', 120, 3000),
             ('suite',)],
     'C18': [('cases', 'c18_exhaustive', sc.c18_exhaustive_size('quick'), sc.c18_exhaustive_size('thorough')),
             ('cases', 'c18_history', 4000, 200000),
@@ -29,7 +30,8 @@ DECIDING = {
             'cycle planted at depth 2'],
     'C16': ['sanitize() calls compared', 'closed trees with nested schedulers', 'trees with dangling requirements'],
     'C17': ['neighbour/closure queries compared', 'multi-start queries', 'entry/exit queries compared',
-            'edits applied before re-asking', 'trees with nested schedulers traversed'],
+            'edits applied before re-asking', 'trees with nested schedulers traversed',
+            'queries answered under a budget of logical steps'],
     'C18': ['bypass_and_remove() calls compared', 'keep_only() calls compared',
             'keep_only_between() calls compared', 'operations applied in sequence'],
     'C19': ['statements interpreted by library and model', 'append() with several jobs',
@@ -48,7 +50,7 @@ RULES = {
            "/ child schedulers and to/from nested schedulers; non-trivial = nested schedulers present or something "
            "to remove; distinct = distinct generator keys",
     'C17': "every DAG up to the tier's size (quick 4, thorough 5 nodes) under a random relabelling, all start sets of "
-           "size <=3, then random edit histories; random DAGs to 12 nodes; random trees for iterate_jobs; "
+           "size <=3, then random edit histories; random DAGs to 12 nodes; path-rich DAGs of 40-150 nodes under a budget of logical steps; random trees for iterate_jobs; "
            "non-trivial = >=3 nodes; distinct = distinct graphs / keys",
     'C18': "every DAG up to the tier's size x every bypass target x every keep_only subset x all starts/ends subsets "
            "of size <=2 x both flags; random operation sequences on DAGs to 12 nodes; non-trivial = >=3 nodes / "
